@@ -82,6 +82,9 @@ def group(rng, data, key, mn, mx, nseg, envs=('zero', 'ff', 'rnd')):
         pieces = split(data, seg)
         evs.append(event('adapter', sid, seg, chunker.adapter(pieces, key, mn, mx), data, 'fresh'))
         evs.append(event('adapter', sid, seg, chunker.adapter(pieces, key, mn, mx, reused), data, 'reused-object'))
+        # the pieces as VIEWS of one buffer that the producer refills for every piece (the readinto pattern): a piece must have been
+        # taken over completely before the next one is asked for
+        evs.append(event('adapter', sid, seg, chunker.adapter(reused_buffer(pieces), key, mn, mx), data, 'views-of-a-reused-buffer'))
         if sid < 3:
             evs.append(event('adapter', sid, seg, chunker.adapter(pieces, key, mn, mx, abandoned), data, 'object-with-an-abandoned-stream'))
             evs.append(event('adapter', sid, seg, chunker.adapter(pieces, key, mn, mx, broken), data, 'object-whose-input-failed'))
@@ -89,6 +92,14 @@ def group(rng, data, key, mn, mx, nseg, envs=('zero', 'ff', 'rnd')):
             evs.append(event('ext', sid, seg, chunker.ext(pieces, key, mn, mx, env), data, env))
             evs.append(event('lib', sid, seg, chunker.libcuts(pieces, key, mn, mx, env), data, env))
     return {'min': mn, 'max': mx, 'events': evs, 'resync': 0, 'keyhex': key.hex(), 'stream_len': len(data)}
+
+
+def reused_buffer(pieces):
+    buf = bytearray(max([len(p) for p in pieces] + [1]))
+    for p in pieces:
+        buf[:len(p)] = p
+        yield memoryview(buf)[:len(p)]
+        buf[:len(p)] = b'\xa5' * len(p)        # the producer reuses the memory at once
 
 
 def classify(t, idx):
